@@ -66,6 +66,35 @@ def sliceStr (base : Nat) (s : Slice) : String := hexOf s.bytes ++ "@" ++ toStri
 
 def listStr (xs : List String) : String := if xs.isEmpty then "-" else String.intercalate "," xs
 
+/-- The `<key>.adapt` value (PROTOCOL.md §5, iterator adaptors) from the full list of rendered
+    elements: `count;last;skip(1);nth(2);step_by(2);next() then nth(1)`. The model has no separate
+    adaptors, they are the list operations. -/
+def adaptStr (xs : List String) : String :=
+  let opt (o : Option String) : String := o.getD "none"
+  let evens := (xs.zipIdx.filter (fun p => p.2 % 2 == 0)).map (·.1)
+  String.intercalate ";" [toString xs.length, opt xs.getLast?, listStr xs.tail, opt xs[2]?,
+    listStr evens, opt xs[2]?]
+
+/-- The elements an iterator yields, rendered; `cap` if the model ran out of fuel. -/
+inductive Elems where
+  | ok (xs : List String)
+  | cap
+  | panic
+
+def Elems.str : Elems → String
+  | .ok xs => listStr xs
+  | .cap => "cap"
+  | .panic => "panic"
+
+def Elems.adapt : Elems → String
+  | .ok xs => adaptStr xs
+  | .cap => "cap"
+  | .panic => "panic"
+
+/-- `String::from_utf8(bytes)`: `ok:<hex>` when the bytes are valid UTF-8, else `err`. -/
+def utf8Str (b : Bytes) : String :=
+  if (ByteArray.mk b.toArray).validateUTF8 then "ok:" ++ hexOf b else "err"
+
 /-- header keys through RtcpPacketParserExt + `padding` -/
 def dumpHeader (pfx : String) (d : Bytes) (padding : Option (R Unit (Option UInt8))) : Out :=
   let o : Out := #[
@@ -88,20 +117,25 @@ def rbStr (b : Bytes) : String :=
 def dumpBlocks (pfx : String) (r : R Unit (List Bytes)) : Out :=
   match r with
   | .ok bs =>
-    let o : Out := #[(pfx ++ "rbs", toString bs.length)]
-    (bs.zipIdx).foldl (fun o (b, i) => o.push (pfx ++ "rb" ++ toString i, rbStr b)) o
-  | _ => #[(pfx ++ "rbs", "panic")]
+    let strs := bs.map rbStr
+    let o : Out := #[(pfx ++ "rbs", toString bs.length), (pfx ++ "rbs.adapt", adaptStr strs)]
+    (strs.zipIdx).foldl (fun o (b, i) => o.push (pfx ++ "rb" ++ toString i, b)) o
+  | _ => #[(pfx ++ "rbs", "panic"), (pfx ++ "rbs.adapt", "panic")]
 
 def dumpAppView (pfx : String) (base : Nat) (d : Bytes) : Out :=
   #[(pfx ++ "ssrc", acc (App.ssrc d) toString),
     (pfx ++ "name", acc (App.name d) hexOf),
     (pfx ++ "data", acc (App.data d) (sliceStr base)),
-    (pfx ++ "strs", "ok")]
+    (pfx ++ "strs", "ok"),
+    -- `get_name_string()`: the name bytes up to the first 0 byte
+    (pfx ++ "name_str", acc (App.name d) (fun n => utf8Str (n.takeWhile (· != 0))))]
 
 def dumpByeView (pfx : String) (base : Nat) (d : Bytes) : Out :=
   #[(pfx ++ "ssrcs", acc (Bye.ssrcs d) (fun l => listStr (l.map toString))),
+    (pfx ++ "ssrcs.adapt", acc (Bye.ssrcs d) (fun l => adaptStr (l.map toString))),
     (pfx ++ "reason", acc (Bye.reason d) (fun o => match o with | none => "none" | some s => sliceStr base s)),
-    (pfx ++ "strs", "ok")]
+    (pfx ++ "strs", "ok"),
+    (pfx ++ "reason_str", acc (Bye.reason d) (fun o => match o with | none => "none" | some s => utf8Str s.bytes))]
 
 def dumpRrView (pfx : String) (d : Bytes) : Out :=
   #[(pfx ++ "ssrc", acc (Rr.ssrc d) toString),
@@ -124,38 +158,54 @@ def itemStr (base : Nat) (it : SdesItem) : String :=
   String.intercalate "," [acc ty toString, acc it.length toString, acc it.value (sliceStr base), priv]
 
 def dumpSdesView (pfx : String) (base : Nat) (s : Sdes) : Out := Id.run do
-  let mut o : Out := #[(pfx ++ "chunks", toString s.chunks.length)]
+  let mut o : Out := #[(pfx ++ "chunks", toString s.chunks.length),
+    (pfx ++ "chunks.adapt", adaptStr (s.chunks.map (fun c => toString c.ssrc)))]
   let mut i := 0
   for c in s.chunks do
     let cp := pfx ++ "c" ++ toString i ++ "."
     o := o.push (cp ++ "ssrc", toString c.ssrc)
     o := o.push (cp ++ "length", acc c.length toString)
     o := o.push (cp ++ "items", toString c.items.length)
+    o := o.push (cp ++ "items.adapt", adaptStr (c.items.map (fun it => acc it.type toString)))
     let mut j := 0
     for it in c.items do
       o := o.push (cp ++ "i" ++ toString j, itemStr base it)
+      -- `get_value_string()`: `String::from_utf8` of the value bytes
+      o := o.push (cp ++ "i" ++ toString j ++ ".str", acc it.value (fun v => utf8Str v.bytes))
       j := j + 1
     i := i + 1
   o := o.push (pfx ++ "strs", "ok")
   return o
 
-def nackStr (d : Bytes) : String :=
+def nackElems (d : Bytes) : Elems :=
   match (Nack.entries d : R Unit _) with
-  | .ok (l, true) => listStr (l.map toString)
-  | .ok (_, false) => "cap"
-  | _ => "panic"
+  | .ok (l, true) => .ok (l.map toString)
+  | .ok (_, false) => .cap
+  | _ => .panic
 
-def firStr (d : Bytes) : String :=
+def firElems (d : Bytes) : Elems :=
   match (Fir.entries d : R Unit _) with
-  | .ok (l, true) => listStr (l.map (fun (s, q) => toString s ++ ":" ++ toString q))
-  | .ok (_, false) => "cap"
-  | _ => "panic"
+  | .ok (l, true) => .ok (l.map (fun (s, q) => toString s ++ ":" ++ toString q))
+  | .ok (_, false) => .cap
+  | _ => .panic
 
-def sliStr (d : Bytes) : String :=
+def sliElems (d : Bytes) : Elems :=
   match (Sli.lostMacroblocks d : R Unit _) with
-  | .ok (l, true) => listStr (l.map (fun e => s!"{e.start}:{e.count}:{e.pictureId}"))
-  | .ok (_, false) => "cap"
-  | _ => "panic"
+  | .ok (l, true) => .ok (l.map (fun e => s!"{e.start}:{e.count}:{e.pictureId}"))
+  | .ok (_, false) => .cap
+  | _ => .panic
+
+def nackStr (d : Bytes) : String := (nackElems d).str
+def firStr (d : Bytes) : String := (firElems d).str
+def sliStr (d : Bytes) : String := (sliElems d).str
+
+/-- the entry list of the FCI kinds that have one -/
+def fciElems (f : Fb.FciType) (d : Bytes) : Option Elems :=
+  match f with
+  | .nack => some (nackElems d)
+  | .fir => some (firElems d)
+  | .sli => some (sliElems d)
+  | _ => none
 
 def rpsiStr (base : Nat) (d : Bytes) : String :=
   let bs : R Unit (Slice × Nat) := Rpsi.bitString 0 d
@@ -183,6 +233,14 @@ def dumpFbView (pfx : String) (base : Nat) (k : FbKind) (d : Bytes) : Out := Id.
       | .err e => "err:" ++ renderParseError e
       | .panic => "panic"
     o := o.push (pfx ++ "fci." ++ fciName f, v)
+    -- no `fci.fir.adapt` in the round trip of a build request: `FirBuilder` writes in `HashMap` order
+    let skip := f == .fir && pfx.startsWith "rt."
+    match Fb.parseFci k f d with
+    | .ok fd =>
+      match (if skip then none else fciElems f fd) with
+      | some es => o := o.push (pfx ++ "fci." ++ fciName f ++ ".adapt", es.adapt)
+      | none => pure ()
+    | _ => pure ()
   return o
 
 def kindName : Kind → String
@@ -255,8 +313,10 @@ def dumpCompound (pfx : String) (d : Bytes) : Out := Id.run do
     | .ok (items, finished, c') =>
       if !finished then
         o := o.push (pfx ++ "n", "cap")
+        o := o.push (pfx ++ "adapt", "cap")
       else
         o := o.push (pfx ++ "n", toString items.length)
+        o := o.push (pfx ++ "adapt", adaptStr (items.map (fun it => resP it.1)))
         let mut i := 0
         for (res, off) in items do
           let ip := pfx ++ "p" ++ toString i ++ "."
@@ -276,7 +336,9 @@ def dumpCompound (pfx : String) (d : Bytes) : Out := Id.run do
           | .ok (some _, st') => after := after ++ ["some"]; st := st'
           | _ => after := after ++ ["panic"]
         o := o.push (pfx ++ "after", String.intercalate "," after)
-    | _ => o := o.push (pfx ++ "n", "panic")
+    | _ =>
+      o := o.push (pfx ++ "n", "panic")
+      o := o.push (pfx ++ "adapt", "panic")
   | _ => pure ()
   return o
 
@@ -320,7 +382,13 @@ def dumpView (pfx : String) (kind : PKind) (d : Bytes) : Out :=
     let r := f.parse d
     let o : Out := #[(pfx ++ "res", resP r)]
     match r with
-    | .ok fd => if f == .pli then o else o.push (pfx ++ key, fciStr 0 f fd)
+    | .ok fd =>
+      if f == .pli then o
+      else
+        let o := o.push (pfx ++ key, fciStr 0 f fd)
+        match fciElems f fd with
+        | some es => o.push (pfx ++ key ++ ".adapt", es.adapt)
+        | none => o
     | _ => o
   match kind with
   | .app => typed .app
